@@ -209,6 +209,12 @@ def run(ctx):
                 # one doctest that leaves the process in another working directory, somewhere in front of the others
                 kinds.insert(rng.randrange(0, max(1, len(kinds) - 1)), rng.choice(modgen.SUBPROCESS_ONLY_KINDS))
             jobs.append((tmp, idx, kinds, rng.choice(['functions', 'mixed']), STYLES[idx % 3], OPTIONS[(idx // 3) % len(OPTIONS)]))
+        # every kind that fails, as the ONLY failure of its module (the exit status and the tallies then depend on it alone); every
+        # force-disable word (the remark is matched whatever its case)
+        extra = [['pass', k, 'pass'] for k in modgen.KINDS if modgen.VERDICT.get(k) == 'failed' and k != 'disabled']
+        extra += [['disabled'] * len(modgen.DISABLE_WORDS) + ['pass'], ['pass'] + ['disabled'] * len(modgen.DISABLE_WORDS)]
+        for kinds in extra:
+            jobs.append((tmp, len(jobs) + 1000, kinds, 'functions', ['auto', 'freeform'][len(jobs) % 2], ''))
         # many failures in one module: the exit status is a small number that a process can report (256 failures are not "0")
         jobs.append((tmp, nmods, ['fail_output'] * 256 + ['pass'], 'functions', 'freeform', ''))
         jobs.append((tmp, nmods + 1, ['fail_exc'] * 512, 'functions', 'google', ''))
